@@ -577,6 +577,11 @@ func scenariosFor(tier string) []vrt.Scenario {
 		}
 		plain(1, true, cfg{kind: "trigger", workers: 2, ticks: q(2, 1), gate: "none", stop: "cancel-q"})
 		plain(1, true, cfg{kind: "trigger", workers: 2, ticks: q(3), gate: "none", stop: "limit", limit: 2})
+		// requests left pending when the limit is reached (a tick two and more above the limit): discarded silently
+		for _, wk := range []int{1, 2} {
+			add(bw[wk], cfg{kind: "trigger", workers: wk, ticks: q(3), gate: "none", stop: "limit", limit: 1})
+			add(bw[wk], cfg{kind: "trigger", workers: wk, ticks: q(1, 6), gate: "none", stop: "limit", limit: 3})
+		}
 		// a negative tick requests nothing (and leaves nothing "pending")
 		add(1, cfg{kind: "trigger", workers: 1, ticks: q(-3, 2, -1), gate: "none", stop: "cancel-q"})
 		addDelay(1, cfg{kind: "trigger", workers: 2, ticks: q(2, -2, 1), gate: "none", stop: "cancel-q"})
